@@ -141,6 +141,11 @@ H("h_float::c11_float_overflow_guard_small", ["C11", "C01"], "numbers::float (fl
 H("h_float_writer::c11_write_f64_all_bits", ["C11"], "toml_write: <f64 as WriteTomlValue>::write_toml_value (unmodified source via E2)", "every f64 bit pattern (integrality of finite values judged by `% 1.0` on both sides, see M4)", measured_s=16, models=("E2", "M4"))
 H("h_float_writer::c11_write_f32_all_bits", ["C11"], "toml_write: <f32 as WriteTomlValue>::write_toml_value (unmodified source via E2)", "every f32 bit pattern", measured_s=11, models=("E2", "M4"))
 
+H("h_serde_leaves::c11_ser_u64_toml_edit", ["C11"], "toml_edit::ser::ValueSerializer::serialize_u64", "every u64", measured_s=10, models=())
+H("h_serde_leaves::c11_ser_small_ints_toml_edit", ["C11"], "toml_edit::ser::ValueSerializer::serialize_{i64,u32,i8}", "every i64, u32, i8", measured_s=26, models=())
+H("h_serde_leaves::c11_ser_f64_toml_edit", ["C11"], "toml_edit::ser::ValueSerializer::serialize_{f64,f32}", "every f64 and f32 bit pattern", measured_s=18, models=())
+H("h_serde_leaves::c11_ser_u64_toml_value", ["C11"], "toml::Value::try_from::<u64> (toml::value::ValueSerializer::serialize_u64)", "every u64", measured_s=1, models=())
+
 # ---- C05: nesting counter -----------------------------------------------------------------------
 H("h_recursion::c05_enter_exit_step", ["C05"], "parser::prelude::RecursionCheck::enter / exit", "every counter value current < LIMIT (symbolic usize), one step", measured_s=1, models=())
 H("h_recursion::c05_check_depth_all", ["C05"], "parser::prelude::RecursionCheck::check_depth", "every usize", measured_s=1, models=())
